@@ -755,4 +755,31 @@ example := single_worker_terminates_partial gRun (by decide) (by decide) (by dec
   (by decide) (by decide +kernel) [] (List.replicate 161 (⟨none, 0⟩, 274))
   (fun x hx => by rw [List.eq_of_mem_replicate hx]; decide) (by rw [List.length_replicate]; decide)
 
+/-- Witness that a hypothesis like `classesOKB` cannot be dropped IN THE MODEL (a graph no parser builds: two copies of
+one class that both concern the same worker).  Setup class 1, scope shape `own` (result filter `"localhost.net1"`): copy 1
+is named `a.localhost.net1` (`max_tries = 1`), copy 2 — reached through another parent — is named `a.net1` (`max_tries = 3`).
+Copy 1 runs once; its result is counted by the rerun rule of copy 2 (1 < 3), the results of copy 2 itself are not
+(their name does not contain the filter string): copy 2 is re-run without end. -/
+def gMis : Graph :=
+  { workers := [{ id := "net1", swarm := "localhost" }],
+    nodes := [{ cls := 0, owner := some 0, name := "root.net1", pfx := "0", sharedRoot := true,
+                cleanup := [(1, ["vm1"]), (3, ["vm1"])] },
+              { cls := 1, owner := some 0, name := "a.localhost.net1", pfx := "1", setup := [(0, ["vm1"])],
+                sets := [("vm1", "a")], objs := ["vm1"], shape := .own, maxTries := some 1 },
+              { cls := 1, owner := some 0, name := "a.net1", pfx := "2", setup := [(3, ["vm1"])],
+                sets := [("vm1", "a")], objs := ["vm1"], shape := .own, maxTries := some 3 },
+              { cls := 2, owner := some 0, name := "p.net1", pfx := "3", setup := [(0, ["vm1"])], cleanup := [(2, ["vm1"])] }],
+    root := 0 }
+
+/-- `gMis` meets every hypothesis of `single_worker_terminates_partial` but `classesOKB`; with all tests passing, after 12
+steps the worker is inside the 10th execution of copy 2 (`max_tries = 3`), each step having been one more execution of
+it (`#eval` shows the same for any number of steps tried, e.g. 168 results after 170 steps, `stepBound gMis = 161`). -/
+theorem unmatched_copy_reruns :
+    gMis.workers.length = 1 ∧ I2N.Trav.Term.rankedB gMis = true ∧ edgeSymB gMis = true ∧
+    I2N.Trav.Term.noFlatB gMis = true ∧ graphWF gMis = true ∧ I2N.Trav.Global.noRootsB gMis = true ∧
+    I2N.Trav.Global.classesOKB gMis = false ∧ I2N.Trav.Term.bound gMis = 144 ∧
+    (fun s : State => (pcWaitOf (s.wd 0).pc, (s.nd 2).results.length))
+      (I2N.Trav.Global.runSteps gMis (initState gMis 3 []) (List.replicate 12 (⟨some "PASS", 1⟩, 144))) = (some (2, 0), 10) := by
+  decide +kernel
+
 end I2N.Props.C02
